@@ -167,7 +167,13 @@ class LabelEncoder(Transformer):
         Args:
             X (array-like, shape=(n_categories,)): List of categories.
         """
-        X = np.asarray(X)
+        X = list(X)
+        if len({type(v) for v in X}) > 1:
+            # categories of different types (e.g., ["a", 1, 2.5]) are kept as they are: NumPy
+            # would convert all of them to the same type (strings)
+            X = np.asarray(X, dtype=object)
+        else:
+            X = np.asarray(X)
         if X.dtype == object:
             self.mapping_ = {v: i for i, v in enumerate(X)}
         else:
@@ -188,7 +194,8 @@ class LabelEncoder(Transformer):
         Returns:
             Xt (array-like, shape=(n_samples, n_categories)): The integer categories.
         """
-        X = np.asarray(X)
+        # dtype=object: the values are looked up as they are (not converted to a common type)
+        X = np.asarray(X, dtype=object)
         return [self.mapping_[v] for v in X]
 
     def inverse_transform(self, Xt):
